@@ -256,6 +256,34 @@ mod verif_c17s {
         }
         kani::cover!(t.0.writes == 1 && !on_thin);
     }
+    /// The stroke of a line does not depend on the stroke alignment (lines are open shapes: the stroke is
+    /// always centred on the ideal line, which is what keeps it within w/2 + 2.5 px of it): pixels() starts
+    /// from the same iterator state and the styled bounding box is the same for all three alignments.
+    /// Constructor-level relational contract through the public styling API, no iteration.
+    //@harness prop=C17,C02 kind=contract tier=quick class=P bound="|dx|, |dy| <= 15, start within +-1024, stroke width <= 8" timeout=900 fns=src/primitives/line/styled.rs::StyledPixelsIterator::new;src/primitives/line/styled.rs::Line::styled_bounding_box;src/primitives/line/thick_points.rs::ThickPoints::new
+    #[kani::proof]
+    #[kani::unwind(6)]
+    fn c17_line_stroke_ignores_alignment() {
+        use crate::primitives::StrokeAlignment;
+        let start = any_point(1024);
+        let d = Point::new((kani::any::<u8>() & 31) as i32 - 16, (kani::any::<u8>() & 31) as i32 - 16);
+        let line = Line::new(start, start + d);
+        let w: u32 = (kani::any::<u8>() & 15) as u32;
+        kani::assume(w <= 8);
+        let mk = |al: StrokeAlignment| {
+            let mut s = PrimitiveStyle::with_stroke(Gray8::new(1), w);
+            s.stroke_alignment = al;
+            s
+        };
+        let (sc, si, so) = (mk(StrokeAlignment::Center), mk(StrokeAlignment::Inside), mk(StrokeAlignment::Outside));
+        let (a, b, c) = (StyledPixelsIterator::new(&line, &sc), StyledPixelsIterator::new(&line, &si), StyledPixelsIterator::new(&line, &so));
+        assert!(a.line_iter == b.line_iter && a.line_iter == c.line_iter);
+        assert!(a.stroke_color == b.stroke_color && a.stroke_color == c.stroke_color);
+        let (ba, bi, bo) = (line.styled_bounding_box(&sc), line.styled_bounding_box(&si), line.styled_bounding_box(&so));
+        assert!(ba == bi && ba == bo);
+        kani::cover!(w == 8 && d.x == 15 && d.y == -7);
+    }
+
     //@harness prop=C17,C02 kind=bounded tier=thorough class=P bound="|dx|, |dy| <= 3, stroke width <= 3, start within +-64" timeout=3000 fns=src/primitives/line/styled.rs::Line::draw_styled;src/primitives/line/thick_points.rs::ThickPoints;src/primitives/line/thick_points.rs::ParallelsIterator;src/primitives/line/styled.rs::Line::styled_bounding_box
     #[kani::proof]
     #[kani::unwind(8)]
@@ -273,6 +301,90 @@ mod verif_c17s {
     #[kani::unwind(12)]
     fn c17_thick_line_bounded_thorough() {
         thick(5, 5, 7);
+    }
+}
+//@end
+
+//@append src/primitives/line/thick_points.rs
+#[cfg(kani)]
+#[allow(missing_docs, trivial_casts, trivial_numeric_casts, unused_qualifications, dead_code, unused)]
+mod verif_c17t {
+    use super::*;
+    use crate::verif_probe::any_point;
+
+    fn small_delta(bits: u8) -> Point {
+        let m = (1u16 << bits) - 1;
+        let h = 1i32 << (bits - 1);
+        Point::new((kani::any::<u16>() & m) as i32 - h, (kani::any::<u16>() & m) as i32 - h)
+    }
+
+    /// "For width 1 the stroke equals points()": the stroke iterator of a width 1 line starts with no
+    /// current parallel, its first parallel is the centre line -- the thin line's own Bresenham state
+    /// (start point, error 0) with the thin line's parameters and full length -- and there is no second
+    /// parallel. With the flattening step below and the Bresenham step contract this is points().
+    //@harness prop=C17 kind=contract tier=quick class=P bound="|dx|, |dy| < 512, start within +-1024" timeout=900 kani="--no-assertion-reach-checks" fns=src/primitives/line/thick_points.rs::ThickPoints::new;src/primitives/line/thick_points.rs::ParallelsIterator::new;src/primitives/line/thick_points.rs::ParallelsIterator::next;src/primitives/line/thick_points.rs::ParallelsIterator::next_parallel
+    #[kani::proof]
+    #[kani::unwind(4)]
+    fn c17_thick_width1_is_thin_line() {
+        let start = any_point(1024);
+        let d = small_delta(10);
+        let line = Line::new(start, start + d);
+        let tp = ThickPoints::new(&line, 1);
+        assert!(tp.parallel_points_remaining == 0 && tp.parallel_length == bresenham::major_length(&line));
+        let mut it = tp.iter;
+        let first = it.next();
+        assert!(first == Some((Bresenham::new(line.start), ParallelLineType::Normal)));
+        assert!(it.next().is_none());
+        if d.x != 0 || d.y != 0 {
+            assert!(tp.iter.parallel_parameters == BresenhamParameters::new(&line));
+        }
+        kani::cover!(d.x == 300 && d.y == -7);
+        kani::cover!(d.x == 0 && d.y == 0);
+    }
+
+    /// ThickPoints::next flattens the parallels: inside a parallel it yields that parallel's next
+    /// Bresenham point and counts down, the parallels iterator is untouched; when the parallel is used up
+    /// it takes the next parallel (Normal: full major length, Extra: one pixel shorter) and yields its
+    /// first point; no further parallel ends the iteration.
+    //@harness prop=C17 kind=step tier=quick class=I bound="parallels iterator states reached from the constructor after 0..=1 steps; |dx|, |dy| < 16, width <= 8; major length >= 2" timeout=900 kani="--no-assertion-reach-checks" fns=src/primitives/line/thick_points.rs::ThickPoints::next
+    #[kani::proof]
+    #[kani::unwind(4)]
+    fn c17_thick_points_step() {
+        let start = any_point(1024);
+        let d = small_delta(5);
+        let line = Line::new(start, start + d);
+        let w = (kani::any::<u8>() & 15) as i32;
+        kani::assume(w <= 8);
+        let tp0 = ThickPoints::new(&line, w);
+        kani::assume(tp0.parallel_length >= 2);
+        let mut it = tp0.iter;
+        if kani::any() {
+            let _ = it.next();
+        }
+        let par = Bresenham::with_initial_error(any_point(2048), (kani::any::<i16>() as i32) / 8);
+        // inside a parallel
+        let r: u32 = kani::any();
+        kani::assume(r >= 1 && r <= 4096);
+        let mut tp = ThickPoints { parallel: par, parallel_length: tp0.parallel_length, parallel_points_remaining: r, iter: it };
+        let mut par2 = par;
+        let want = par2.next(&it.parallel_parameters);
+        assert!(tp.next() == Some(want));
+        assert!(tp.parallel == par2 && tp.parallel_points_remaining == r - 1 && tp.iter == it && tp.parallel_length == tp0.parallel_length);
+        // parallel used up
+        let mut tp = ThickPoints { parallel: par, parallel_length: tp0.parallel_length, parallel_points_remaining: 0, iter: it };
+        let mut it2 = it;
+        let got = tp.next();
+        match it2.next() {
+            None => assert!(got.is_none()),
+            Some((mut b, ty)) => {
+                let len = tp0.parallel_length - if ty == ParallelLineType::Extra { 1 } else { 0 };
+                let first = b.next(&it.parallel_parameters);
+                assert!(got == Some(first));
+                assert!(tp.parallel == b && tp.parallel_points_remaining == len - 1 && tp.iter == it2);
+            }
+        }
+        kani::cover!(got.is_some());
+        kani::cover!(got.is_none());
     }
 }
 //@end
